@@ -9,6 +9,7 @@ reference machine E2 (refmachine.py):
 """
 from __future__ import annotations
 
+import hashlib
 import itertools
 import sys
 
@@ -50,6 +51,13 @@ def alphabet(full: bool = True) -> list[bytes]:
 
 
 ALPHA = alphabet()
+# rule-centred alphabet for a deeper second search
+RULE_ALPHA = [bytes([2, 0]), bytes([2, 1]), bytes([3, 0]), bytes([137, 0]), bytes([137, 1]), mvbytes(0, E=(0,)), mvbytes(0, N=(0,)),
+              bytes([5]), bytes([8, 0]), bytes([7, 0]), bytes([10, 0]), bytes([11, 0]),
+              bytes([12]), bytes([13]), bytes([14]), bytes([15]), bytes([19]),
+              bytes([21]), bytes([22, 0]), bytes([22, 1]), bytes([24, 0]), bytes([26, 1, 0]), bytes([26, 1, 1]), bytes([26, 2, 0, 1]),
+              bytes([27]), bytes([28]), bytes([29, 0]), bytes([30])]
+ALPHABETS = {'full': ALPHA, 'rule': RULE_ALPHA}
 
 # seeds: (name, gamma, claim, phase to explore)
 G1 = bytes([137, 0, 137, 0, 5, 30])                      # axiom  phi0 -> phi0
@@ -99,10 +107,11 @@ def classify(rust: str, g: bytes, c: bytes, p: bytes, upto: int):
 
 def expand_chunk(args):
     """worker: expand a list of programs by every alphabet instruction."""
-    seed_idx, progs, caps = args
+    seed_idx, progs, caps = args[:3]
+    A = ALPHABETS[args[3] if len(args) > 3 else 'full']
     name, g, c, upto = SEEDS[seed_idx]
     h = par.harness()
-    h.set_alphabet(ALPHA)
+    h.set_alphabet(A)
     max_stack, max_mem, max_len = caps
     reqs = []
     for prog in progs:
@@ -120,7 +129,7 @@ def expand_chunk(args):
     viols = []
     for prog, ans in zip(progs, answers):
         res = ans.split('\t')
-        for a, rust in zip(ALPHA, res):
+        for a, rust in zip(A, res):
             stats['transitions'] += 1
             child = prog + a
             if upto == 0:
@@ -144,11 +153,11 @@ def expand_chunk(args):
                         or len(d) > max_len:
                     stats['capped'] += 1
                     continue
-                children.append((child, d))
+                children.append((child, hashlib.blake2b(d.encode(), digest_size=16).digest()))
     return children, stats, reasons, viols
 
 
-def bfs(chk: common.Check, seed_idx: int, depth: int, caps, agg):
+def bfs(chk: common.Check, seed_idx: int, depth: int, caps, agg, alpha: str = 'full'):
     name = SEEDS[seed_idx][0]
     seen = set()
     frontier = [b'']
@@ -157,9 +166,9 @@ def bfs(chk: common.Check, seed_idx: int, depth: int, caps, agg):
     _, g, c, upto = SEEDS[seed_idx]
     d0 = h.ask(f'R {upto} {common.hx(g)} {common.hx(c)} -')
     assert d0.startswith('OK '), (name, d0)
-    seen.add(d0[3:])
+    seen.add(hashlib.blake2b(d0[3:].encode(), digest_size=16).digest())
     for lvl in range(1, depth + 1):
-        work = [(seed_idx, ch, caps) for ch in par.chunks(frontier, common.ncpu() * 4)]
+        work = [(seed_idx, ch, caps, alpha) for ch in par.chunks(frontier, common.ncpu() * 4)]
         results = par.pmap(expand_chunk, work)
         nxt = []
         for children, stats, reasons, viols in results:
@@ -176,7 +185,7 @@ def bfs(chk: common.Check, seed_idx: int, depth: int, caps, agg):
                 if d not in seen:
                     seen.add(d)
                     nxt.append(child)
-        agg['levels'].append({'seed': name, 'depth': lvl, 'new_states': len(nxt)})
+        agg['levels'].append({'seed': name, 'alphabet': alpha, 'depth': lvl, 'new_states': len(nxt)})
         frontier = nxt
         if not frontier:
             break
@@ -363,6 +372,9 @@ def main(argv=None) -> int:
     for si in range(len(SEEDS)):
         depth = depth_main if si < 2 else depth_main - 1 if not thorough else depth_main
         bfs(chk, si, depth, caps, agg)
+    # deeper search with the rule-centred alphabet (proof phase, empty and seeded theory)
+    for si in (0, 1):
+        bfs(chk, si, 6 if thorough else 5, caps, agg, 'rule')
     # (2) raw strings
     maxlen = 4 if thorough else 3
     raws = list(raw_strings(maxlen))
